@@ -79,6 +79,10 @@ def cfgs_random(prop, tier, rng):
             c['a'] = [-3.0 + d for d in range(D)]
             c['b'] = [6.0 + 2 * d for d in range(D)]
             c['int_domain'] = rng.random() < 0.5
+        r = rng.random()
+        if r < 0.2:
+            # further constructor options of the strategy
+            c['extra'] = rng.choice([{'use_volume_weighting': True}, {'use_relative_surplus': True}])      # (dim_adaptive=False keeps the standard scheme without adaptive index sets: not driven)
         c['name'] = 'random-config %d' % i
         out.append((c, rng.randint(3, 6) if D == 2 else rng.randint(2, 4)))
     return out
@@ -253,7 +257,7 @@ def replay_prop(prop, path, seed):
         r = json.load(f)['replay']
     cfg = r['script']['cfg']
     run = P.DimWiseRun(cfg['D'], cfg['lmin'], cfg['lmax'], version=cfg['version'], rebalancing=cfg['rebalancing'], boundary=cfg['boundary'],
-                       safety=cfg['safety'], margin=cfg['margin'], a=cfg['a'], b=cfg['b'], continue_via=cfg.get('continue_via', 'resume'))
+                       safety=cfg['safety'], margin=cfg['margin'], a=cfg['a'], b=cfg['b'], continue_via=cfg.get('continue_via', 'resume'), extra=cfg.get('extra'))
     run.evaluate()
     evs = [P.observe(run)]
     if r['script']['start_depth'] != 0:
